@@ -140,6 +140,14 @@ PROPS["C18"] = dict(
     assumptions=["loopback HTTP works in the sandbox", "the CLI is exercised with file and pipe input only"],
 )
 
+# further properties: one file per property under bin/props.d/ (each defines PROP_ID and PROP),
+# so that work on different properties never touches the same file
+import os as _os, glob as _glob
+for _f in sorted(_glob.glob(_os.path.join(_os.path.dirname(_os.path.abspath(__file__)), "props.d", "C*.py"))):
+    _ns = {}
+    exec(compile(open(_f).read(), _f, "exec"), _ns)
+    PROPS[_ns["PROP_ID"]] = _ns["PROP"]
+
 # properties not (yet) claimed, with the reason
 NOT_APPLICABLE = {
 }
